@@ -66,9 +66,12 @@ structure Env where
   root : Path
   vcsNone : Bool
 
-/-- `_path_to_license_file` + `find_licenses_directory` (with the "Hack"). -/
+/-- `_path_to_license_file` + `find_licenses_directory` (with the "Hack": a root that is the
+    unversioned working directory and is itself called `LICENSES` receives the texts directly;
+    a root of that name given with `--root` from another directory does not —
+    fixes/download-licenses-named-root-elsewhere.diff). -/
 def licensesDir (e : Env) : Path :=
-  if e.root.getLast? == some licensesName && e.vcsNone then
+  if e.root.getLast? == some licensesName && e.vcsNone && e.root == e.cwd then
     (if e.cwd.getLast? == some licensesName then e.cwd else e.cwd ++ [licensesName])
   else e.root ++ [licensesName]
 
